@@ -349,6 +349,7 @@ async def run_connections(st, uni, nconns, schedule, sid_map, rate_limiter=None,
     schedule: list of steps
        ("open", c)                       start the handler of connection c
        ("msg", c, abstract_message)      put the frame into c's inbox; abstract_message = dict(m=..., ...)
+       ("defer", c, abstract_message)    the same, but the frame arrives when the storage layer next suspends a fan-out
        ("disc", c)                       the peer goes away
        ("timeout", c)                    the peer stays silent until the relay's message timeout fires (the relay closes)
        ("stall", c) / ("unstall", c)     the peer stops / resumes reading: ws_send blocks meanwhile
@@ -390,8 +391,18 @@ async def run_connections(st, uni, nconns, schedule, sid_map, rate_limiter=None,
 
     real_base_asyncio = _base.asyncio
 
+    deferred = []
+
+    def release_deferred():
+        while deferred:
+            c_, item = deferred.pop(0)
+            if c_ in conns:
+                conns[c_].inbox.put_nowait(item)
+
     async def _slow_wait(fs, **kw):
-        for _ in range(3):
+        # messages the schedule holds back for this moment ("defer") arrive now, while the fan-out is suspended
+        release_deferred()
+        for _ in range(4):
             await real_asyncio.sleep(0)
         return await real_asyncio.wait(fs, **kw)
 
@@ -495,6 +506,9 @@ async def run_connections(st, uni, nconns, schedule, sid_map, rate_limiter=None,
             elif kind == "msg":
                 cn = conns[step[1]]
                 cn.inbox.put_nowait(("msg", concretise(step[2]), step[2]))
+            elif kind == "defer":
+                # a message that arrives when the storage layer next suspends a fan-out (or at the next idle point at the latest)
+                deferred.append((step[1], ("msg", concretise(step[2]), step[2])))
             elif kind == "call":
                 # dynamic messages: fn(recorder) -> [(c, frame text, abstract message)], built from what was observed so far
                 for c, text, abstract in step[1](rec):
@@ -517,11 +531,13 @@ async def run_connections(st, uni, nconns, schedule, sid_map, rate_limiter=None,
             elif kind == "unstall":
                 conns[step[1]].gate.set()
             elif kind == "idle":
+                release_deferred()
                 ok = await idle()
                 rec.emit(a="Idle", ok=ok, reg=rec.registry(), qlen={c: 0 for c in conns})
             elif kind == "yield":
                 for _ in range(step[1]):
                     await asyncio.sleep(0)
+        release_deferred()
         # end of schedule: disconnect whoever is still connected, then quiesce
         await idle()
         for cn in conns.values():
